@@ -209,9 +209,32 @@ package replicator
 //@   ensures (result == nil) == (nfail == 0)
 //@   modifies "F:replicator.replicator.buffer", "MD:V_cid_Cid:Int", "MV:V_cid_Cid:Int", "MC:V_cid_Cid:Int", "C:Slice_Iface", "G:lastFetched", "G:fetchCalls"
 
+// Load (C10 C11 C19): a head that is newly queued gets exactly one load-added event and one process (counted
+// at the wait-group registration that precedes each `go`); a head that is already known gets neither (a
+// load-added event with no fetch behind it raises the store's maximum for ever, an item queued without a
+// process is consumed by the next head's process and leaves that head waiting for ever).
+//@ func (*replicator).rootContextWithCancel
+//@   props C10 C11 C19
+//@   modifies nothing
+//@ extern param:(*replicator).Load.cancel as cancel()
+//@   modifies nothing
+//@ func (*replicator).Load
+//@   props C10 C11 C19
+//@   flag nilcalls
+//@   flag no-safety
+//@   requires wfr(r)
+//@   requires forall j Int :: 0 <= j && j < len(entries) ==> entries[j] != nil && ref(entries[j]) != 0
+//@   ghost A := r.emitters.evtLoadAdded
+//@   ghost E0 := evCount(r.emitters.evtLoadAdded)
+//@   count @ after call r.AddEntryToQueue#1 when !$r0: nq
+//@   count @ after call wg.Add#1 when true: nproc
+//@   loop 2 invariant wfr(r) && r.emitters.evtLoadAdded == A && evCount(A) == E0 + nq && nproc == nq
+//@   ensures evCount(A) == E0 + nq
+//@   ensures nproc == nq
+
 // processOne: the item taken from the queue is marked fetched only when its fetch succeeded.
 //@ func (*replicator).processOne
-//@   props C11
+//@   props C11 C10 C12
 //@   flag nilcalls
 //@   requires wfr(r)
 //@   requires len(deref(r.queue)) > 0 && (forall j Int :: 0 <= j && j < len(deref(r.queue)) ==> deref(r.queue)[j] != nil)
